@@ -93,6 +93,7 @@ def check(ctx):
     ctx.attempt(fresh_inputs, specs=(('Tract.parse', 'TractParser', 'tract_parse'),))
     ctx.attempt(common.embedded_case_consistency, modules=('rgxlib.aliquots',))
     ctx.attempt(_chain_language)
+    ctx.attempt(common.config_words, plss=('clean_qq',), tract=('clean_qq',))
 
 
 def _tables(ctx, base):
